@@ -20,6 +20,7 @@ RULE = ("estimators created with an explicit Config over seeded definitions (0-2
         "Config field with several values, unknown keys, flatten / inverse-flatten of the noise magnitudes (including negative and tiny "
         "entries), and fit on seeded finite matrices with the outcome classified {returned, MinimizationFailure, other}; distinct by "
         "(definition, operation, argument); non-trivial = >=2 noise entries or a Config field other than the default is involved; "
+        "fixed stream controlless-fits: a model without control inputs (empty process-noise table) and one with a single control fitted on fixed data; "
         "written-order stream (fixed inputs): two estimators whose process / sensor noise dicts are written in NON-alphabetical key order with a "
         "different magnitude per entry (2 and 3 readings per sensor, 2 sensors, 2 controls): flatten -> inverse gives back the held noise, "
         "inverse -> set_params -> flatten gives back the vector, both against the Lean model, and through fit with the minimiser as a parameter: "
@@ -203,6 +204,36 @@ def written_order_stream(ctx, drv, pending):
             ctx.count("written-order:fit_outcome=MinimizationFailure")
         except Exception as e:
             ctx.fail(f"fit-raises:{fk.exc_kind(e)}", f"fit neither returns nor raises MinimizationFailure: {e!r}"[:300], case)
+
+
+def controlless_fits(ctx):
+    """fixed stream: models with NO control inputs (the only valid process noise is the empty table) and with one control, fitted on
+    fixed data: fit returns (noise tables naming exactly the controls / readings, finite) or raises the library's minimisation error"""
+    from formak.exceptions import MinimizationFailure
+    x, v, u, dt = sympy.symbols("fx fv fu dt")
+    free = gen.Definition(dt, [x, v], [], [], {x: x + dt * v, v: v * sympy.Rational(9, 10)}, {"gps": {"px": x, "pv": v + x}})
+    driven = gen.Definition(dt, [x, v], [u], [], {x: x + dt * v, v: v + dt * u}, {"gps": {"px": x, "pv": v + x}})
+    rows = [[0.25, -0.5], [0.5, 0.25], [-0.25, 0.75], [1.0, -0.25], [0.75, 0.5], [-0.5, 1.0]]
+    for label, d, process in (("no-control", free, {}), ("one-control", driven, {"fu": F(1, 2)})):
+        sensor = {"gps": {"px": F(3, 4), "pv": F(5, 4)}}
+        X = np.array([([0.125 * (i + 1)] if d.control else []) + r for i, r in enumerate(rows)], dtype=float)
+        case = {"stream": "controlless-fits", "variant": label, "def": d.describe(), "X": X.tolist()}
+        ctx.case(case, True); ctx.count(f"stream=controlless-fits:{label}")
+        try:
+            with fk.quiet():
+                ad = C16.make_adapter(d, process, sensor, {}, None)
+                res = ad.fit(X)
+        except MinimizationFailure:
+            ctx.count("controlless_fit_outcome=MinimizationFailure"); continue
+        except Exception as e:
+            ctx.fail(f"fit-raises:{fk.exc_kind(e)}:{label}", f"fit neither returns nor raises MinimizationFailure: {e!r}"[:300], case); continue
+        ctx.count("controlless_fit_outcome=returned")
+        after = res.get_params()
+        pn, sn = after["process_noise"], after["sensor_noises"]
+        if sorted(str(k) for k in pn) != sorted(s_.name for s_ in d.control) or any(not (math.isfinite(v_) and v_ > 0) for v_ in pn.values()):
+            ctx.fail(f"fit-process-noise:{label}", f"fitted process noise {pn} is not a finite positive magnitude per control", case)
+        if {k: sorted(map(str, rd)) for k, rd in sn.items()} != {"gps": ["pv", "px"]} or any(not math.isfinite(v_) for rd in sn.values() for v_ in rd.values()):
+            ctx.fail(f"fit-sensor-noise:{label}", f"fitted sensor noise {sn} does not name exactly the sensors/readings with finite magnitudes", case)
 
 
 def run(ctx):
@@ -437,6 +468,7 @@ def run(ctx):
             if {k: sorted(map(str, rd)) for k, rd in sn.items()} != sens_shape or any(not math.isfinite(v) for rd in sn.values() for v in rd.values()):
                 ctx.fail("fit-sensor-noise", f"fitted sensor noise {sn} does not name exactly the sensors/readings with finite magnitudes", case)
     written_order_stream(ctx, drv, pending)
+    controlless_fits(ctx)                     # fixed inputs; no draws from ctx.rng
     ans = drv.run()
     for kind, idx, got, info in pending:
         a = ans[idx]
